@@ -75,6 +75,13 @@ def judge(res, js, line, real, autopong, sent_pings=None):
     tk = toks(real)
     def fail(msg):
         res.failures.append(dict(cls='pong', what=msg, input=line[-1500:], scenario=js, observed=[t[:60] for t in tk[-8:]]))
+    # token placement (Lean: C14Tokens.tokens_well_placed): every call-result token directly follows an event, a token, or exactly
+    # one write / socket close that itself directly follows an event or a token - so "followed by R:" classifies writes unambiguously
+    def _att(j):
+        return j >= 0 and tk[j].startswith(('E:', 'R:'))
+    for i, t in enumerate(tk):
+        if t.startswith('R:') and not (_att(i - 1) or (i >= 1 and (tk[i - 1].startswith(('W:', 'WF:', 'Z:')) or tk[i - 1] == 'SC') and _att(i - 2))):
+            return fail('call-result token at position %d is not attached to an event through one call block (the write classification would be ambiguous)' % i)
     # classify writes: application writes are followed (immediately) by an R: token
     client_closed = False
     lib_pongs, expected = [], []
